@@ -72,7 +72,7 @@ func GenCtl(t *rapid.T) CaseCtl {
 			c.Steps = append(c.Steps, st)
 		case 5, 6:
 			if c.Kind == qadapt.KindSync && rapid.Bool().Draw(t, "steal") {
-				c.Steps = append(c.Steps, Step{Op: "steal"})
+				c.Steps = append(c.Steps, Step{Op: "steal", N: rapid.SampledFrom([]int{0, 2, 63, 64, 65, 100, 300, 129}).Draw(t, "nsteal")})
 			} else {
 				c.Steps = append(c.Steps, Step{Op: "consume", Anyway: rapid.Bool().Draw(t, "anyway")})
 			}
@@ -304,26 +304,49 @@ func ExecCtl(c CaseCtl) *vkit.Result {
 				res.Skip("steal-not-applicable")
 				continue
 			}
-			v := 1000 + 100*i
-			var sv int
-			var sok, sclosed bool
+			// N > 1: a burst of N pushes, then TryPop until nothing comes back (a backlog of more than 64 items is a
+			// size at which a ring buffer is typically grown - and released again once drained)
+			nSteal := 1
+			if st.N > 1 {
+				nSteal = st.N
+				if nSteal > 2000 {
+					res.Skip("bad-steal")
+					continue
+				}
+				res.Class("steal-burst")
+				if nSteal > 64 {
+					res.Class("steal-burst>64")
+				}
+			}
+			base := 100000 * (i + 1)
+			stolen := map[int]int{}
+			var sclosed bool
 			op := sched.Go("steal", func() {
-				q.Add(qadapt.LaneReq, v)
-				sv, sok, sclosed = q.TryPop()
+				for k := 0; k < nSteal; k++ {
+					q.Add(qadapt.LaneReq, base+k)
+				}
+				for {
+					sv, sok, scl := q.TryPop()
+					if scl {
+						sclosed = true
+						return
+					}
+					if !sok {
+						return
+					}
+					stolen[sv]++
+				}
 			})
 			sched.MustQuiesce()
 			if !op.Done() {
 				return res.Failf("producer-blocked", "step %d steal on %s: Push+TryPop is parked forever", i, c.Kind)
 			}
-			got := 0
 			if sclosed {
 				return res.Failf("closed-on-open-queue", "step %d steal on %s: TryPop reported closed on an open queue", i, c.Kind)
 			}
-			if sok {
-				if sv != v {
-					return res.Failf("wake-up", "step %d steal on %s: TryPop returned %d, the only item is %d", i, c.Kind, sv, v)
-				}
-				got++
+			handed := map[int]int{}
+			for v, n := range stolen {
+				handed[v] += n
 			}
 			parked := 0
 			for ci, cn := range cons {
@@ -336,15 +359,38 @@ func ExecCtl(c CaseCtl) *vkit.Result {
 				}
 				cn.seen = true
 				if cn.err != nil || cn.closed {
-					return res.Failf("closed-on-open-queue", "step %d steal on %s: parked consumer %d returned closed=%v err=%v although the queue is open (an item was pushed and taken by someone else)", i, c.Kind, ci, cn.closed, cn.err)
+					return res.Failf("closed-on-open-queue", "step %d steal on %s: parked consumer %d returned closed=%v err=%v although the queue is open (items were pushed and taken by someone else)", i, c.Kind, ci, cn.closed, cn.err)
 				}
-				if cn.v != v {
-					return res.Failf("wake-up", "step %d steal on %s: consumer %d returned %d, the only item is %d", i, c.Kind, ci, cn.v, v)
-				}
-				got++
+				handed[cn.v]++
 			}
-			if got != 1 {
-				return res.Failf("wake-up", "step %d steal on %s: the pushed item was handed out %d times", i, c.Kind, got)
+			// (TryPop ran until it found nothing, but a consumer woken late may find nothing either and park again:
+			// whatever was pushed was handed out exactly once, to the stealer or to a consumer that was parked)
+			residue := q.Len()
+			for k := 0; k < nSteal; k++ {
+				if handed[base+k] > 1 {
+					return res.Failf("wake-up", "step %d steal on %s: item %d was handed out %d times", i, c.Kind, base+k, handed[base+k])
+				}
+			}
+			for v := range handed {
+				if v < base || v >= base+nSteal {
+					return res.Failf("wake-up", "step %d steal on %s: item %d was handed out, which this step did not push (the queue was empty before)", i, c.Kind, v)
+				}
+			}
+			if len(handed)+residue != nSteal {
+				return res.Failf("wake-up", "step %d steal on %s: %d items pushed, %d handed out, %d left in the queue", i, c.Kind, nSteal, len(handed), residue)
+			}
+			if residue > 0 && parked > 0 {
+				return res.Failf("wake-up", "step %d steal on %s: %d consumers are parked forever although the queue holds %d items", i, c.Kind, parked, residue)
+			}
+			for k := 0; k < residue; k++ {
+				m.lanes[qadapt.LaneReq] = append(m.lanes[qadapt.LaneReq], -1) // unknown which; drained below
+			}
+			if residue > 0 {
+				// keep the model simple: take the residue out again
+				for k := 0; k < residue; k++ {
+					q.TryPop()
+				}
+				m.lanes[qadapt.LaneReq] = nil
 			}
 			if m.waiting > 0 {
 				res.Class("steal-with-parked-consumers")
@@ -836,6 +882,8 @@ type CasePriStress struct {
 	Producers [][]int `json:"producers"` // priorities to push, per producer
 	Consumers int     `json:"consumers"`
 	Slack     int     `json:"slack"` // capacity = total + slack
+	// Observers: goroutines that keep calling Len() while the producers run (and a little longer)
+	Observers int `json:"observers,omitempty"`
 }
 
 func GenPriStress(t *rapid.T) CasePriStress {
@@ -844,6 +892,7 @@ func GenPriStress(t *rapid.T) CasePriStress {
 	for i := 0; i < np; i++ {
 		c.Producers = append(c.Producers, rapid.SliceOfN(rapid.IntRange(-2, 2), 1, 25).Draw(t, "pris"))
 	}
+	c.Observers = rapid.SampledFrom([]int{0, 0, 1, 2}).Draw(t, "observers")
 	return c
 }
 
@@ -870,6 +919,8 @@ func ExecPriStress(c CasePriStress) *vkit.Result {
 		consumed = map[int]int{}
 		refused  atomic.Int64
 	)
+	var prodLeft atomic.Int64
+	prodLeft.Store(int64(len(c.Producers)))
 	for pi, pris := range c.Producers {
 		pi, pris := pi, pris
 		sched.Go(fmt.Sprintf("producer-%d", pi), func() {
@@ -879,8 +930,22 @@ func ExecPriStress(c CasePriStress) *vkit.Result {
 					refused.Add(1)
 				}
 			}
-
+			prodLeft.Add(-1)
 		})
+	}
+	for oi := 0; oi < c.Observers && oi < 4 && q.Len != nil; oi++ {
+		sched.Go(fmt.Sprintf("observer-%d", oi), func() {
+			<-start
+			for extra := 0; extra < 3000; {
+				_ = q.Len()
+				if prodLeft.Load() == 0 {
+					extra++
+				}
+			}
+		})
+	}
+	if c.Observers > 0 {
+		res.Class("concurrent-Len-observers")
 	}
 	var cops []*vkit.Op
 	for ci := 0; ci < c.Consumers; ci++ {
